@@ -72,6 +72,12 @@ func runOne(c *verdict.Ctx, idx int) {
 		}
 	}
 	c.Count("prefix."+recipe, 1)
+	if len(net.HaltedNodes()) > 0 {
+		c.Eval()
+		c.Violation("correct-node-halted-on-panic", fmt.Sprintf("a correct node stopped with a consensus panic in the prefix while faulty power is below 1/3: %v", net.HaltedNodes()),
+			witness{Stream: "exec", Case: idx, Config: cfg, Trace: tail(net.Trace, 150)})
+		return
+	}
 	// ---- synchrony point
 	_, H := net.MinMaxHeight()
 	var rstar int32
@@ -157,6 +163,8 @@ func runOne(c *verdict.Ctx, idx int) {
 	switch {
 	case res.Decided && res.MaxRound <= bound:
 		c.Count("suffix.decided_within_bound", 1)
+	case res.Halted:
+		c.Violation("correct-node-halted-on-panic", fmt.Sprintf("a correct node stopped with a consensus panic while faulty power is below 1/3: %v", net.HaltedNodes()), w)
 	case res.Wedged:
 		c.Violation("wedged-after-synchrony", fmt.Sprintf("nothing in flight, gossip changes nothing and no correct node has a pending timeout, but height %d is undecided", H), w)
 	case res.MaxRound > bound:
